@@ -212,6 +212,10 @@ def _constructor(op, tmp):
     TS = _store_cls()
     if op == 'c':
         return TS.create()
+    if op == 'cf':  # file-backed: nothing is written before the first add, so HDF5 is not entered
+        import uuid
+
+        return TS.create(base_file=tmp / f'{uuid.uuid4().hex}.nc')
     if op == 'fa':
         return TS.open()  # READ mode without a base file: refused by the argument check
     if op == 'fo':
@@ -219,6 +223,16 @@ def _constructor(op, tmp):
     if op == 'fm':
         return TS.open(base_file=tmp / 'missing.nc')
     raise MachineryError(f'unknown script operation {op}')
+
+
+def _script_job(job):
+    script, tmp = job
+    try:
+        return run_script(script, Path(tmp))
+    except Exception as e:
+        import traceback
+
+        return f'{type(e).__name__}: {e}\n{traceback.format_exc()}'
 
 
 def run_script(script, tmp) -> list[dict]:
@@ -283,7 +297,7 @@ def run_script(script, tmp) -> list[dict]:
 def run(ctx: Ctx):
     ctx.rule = (
         'schedules = all interleavings (TLC-enumerated) of the N guard-region line events of two threads each '
-        'constructing a first store, N discovered by a solo dry run; plus sequential scripts over {create, close, 3 kinds of failing constructor} x 2 threads: '
+        'constructing a first store, N discovered by a solo dry run; plus sequential scripts over {create in memory, create file-backed, close, 3 kinds of failing constructor} x 2 threads: '
         'every StoreGuard behaviour of length 3 (4 thorough), random walks of length 7, 5 hand-written orders; '
         'non-trivial = schedule in which both threads are inside the guard region at the same time'
     )
@@ -354,8 +368,15 @@ def run(ctx: Ctx):
     tmp = Path(tempfile.mkdtemp(prefix='c20-'))
     try:
         (tmp / 'not-netcdf.nc').write_bytes(b'this is not a NetCDF file\n' * 8)
-        for name, script in scripts.items():
-            ev = run_script(script, tmp)
+        from .store_replay import pmap
+
+        # scripts are independent (the owner record is reset before each): run them in worker processes
+        names = list(scripts)
+        evs = pmap(_script_job, [(scripts[n], str(tmp)) for n in names])
+        for name, ev in zip(names, evs):
+            script = scripts[name]
+            if isinstance(ev, str):
+                raise MachineryError('guard script worker failed: ' + ev)
             sched_of[name] = {'name': name, 'script_ops': script, 'expected': expected.get(name)}
             traces.append({'t': name, 'ev': ev})
             kinds = {op for _, op in script}
